@@ -168,7 +168,7 @@ class Ctx(object):
                     case, detail = case2, detail2
             except Exception:  # minimiser trouble must never hide the finding
                 traceback.print_exc()
-        d = os.path.join(VERIF, "replays", self.prop_id)
+        d = os.path.join(os.environ.get("VERIF_REPLAY_DIR") or os.path.join(VERIF, "replays"), self.prop_id)
         os.makedirs(d, exist_ok=True)
         path = os.path.join(d, "%s.json" % h([bucket["sig"], case]))
         with open(path, "w") as f:
@@ -233,7 +233,7 @@ class Ctx(object):
             "wall_s": round(time.time() - self.t0, 2),
             "violations": int(nviol),
         }
-        d = os.path.join(VERIF, "evidence")
+        d = os.environ.get("VERIF_EVIDENCE_DIR") or os.path.join(VERIF, "evidence")
         os.makedirs(d, exist_ok=True)
         with open(os.path.join(d, "%s.json" % self.prop_id), "w") as f:
             json.dump(ev, f, indent=1, default=repr)
